@@ -1248,6 +1248,11 @@ static void do_kdecomp(CMR* cmr)
     sepa->rowsFlags[r] = nx() ? CMR_SEPA_SECOND : CMR_SEPA_FIRST;
   for (size_t c = 0; c < n; ++c)
     sepa->columnsFlags[c] = nx() ? CMR_SEPA_SECOND : CMR_SEPA_FIRST;
+  /* optional trailing tokens: 3-connectivity flag (see below) and a mask of optional output arrays: bits 0..3 pass NULL
+   * for rowsOrigin / columnsOrigin of the first / second component, bits 4, 5 pass arrays for rowsTo* / columnsTo*
+   * (NULL otherwise).  With a non-zero mask only the resource behaviour is of interest (ok = 3: nothing is judged). */
+  int threeConnected = more() ? (int) nx() : 1;
+  int nullmask = more() ? (int) nx() : 0;
   int ok = 1; /* 0: not a separation of the requested type, 1: decomposed, 2: refused by the epsilon / connecting-matrix search */
   bool swapped = false;
   CMR_SUBMAT* viol = NULL;
@@ -1277,8 +1282,18 @@ static void do_kdecomp(CMR* cmr)
   size_t cap = m + n + 8;
   size_t* ro1 = malloc(cap * sizeof(size_t)); size_t* co1 = malloc(cap * sizeof(size_t));
   size_t* ro2 = malloc(cap * sizeof(size_t)); size_t* co2 = malloc(cap * sizeof(size_t));
+  size_t* rt1 = malloc(cap * sizeof(size_t)); size_t* ct1 = malloc(cap * sizeof(size_t));
+  size_t* rt2 = malloc(cap * sizeof(size_t)); size_t* ct2 = malloc(cap * sizeof(size_t));
   for (size_t i = 0; i < cap; ++i)
     ro1[i] = co1[i] = ro2[i] = co2[i] = SIZE_MAX;
+  size_t* P_RO1 = (nullmask & 1) ? NULL : ro1;
+  size_t* P_CO1 = (nullmask & 2) ? NULL : co1;
+  size_t* P_RO2 = (nullmask & 4) ? NULL : ro2;
+  size_t* P_CO2 = (nullmask & 8) ? NULL : co2;
+  size_t* P_RT1 = (nullmask & 16) ? rt1 : NULL;
+  size_t* P_CT1 = (nullmask & 16) ? ct1 : NULL;
+  size_t* P_RT2 = (nullmask & 32) ? rt2 : NULL;
+  size_t* P_CT2 = (nullmask & 32) ? ct2 : NULL;
   size_t fsr[4] = {0, 0, 0, 0}, fsc[4] = {0, 0, 0, 0}, ssr[4] = {0, 0, 0, 0}, ssc[4] = {0, 0, 0, 0};
   size_t nfsr = 0, nfsc = 0, nssr = 0, nssc = 0;
   char eps = 0, beta = 0, gamma = 0;
@@ -1290,8 +1305,8 @@ static void do_kdecomp(CMR* cmr)
     if (kind == 2)
     {
       size_t a[1] = {SIZE_MAX}, b[1] = {SIZE_MAX}, c[1] = {SIZE_MAX}, d[1] = {SIZE_MAX};
-      rc1 = CMRtwosumDecomposeFirst(cmr, M, sepa, &X1, ro1, co1, NULL, NULL, a, b);
-      rc2 = CMRtwosumDecomposeSecond(cmr, M, sepa, &X2, ro2, co2, NULL, NULL, c, d);
+      rc1 = CMRtwosumDecomposeFirst(cmr, M, sepa, &X1, P_RO1, P_CO1, P_RT1, P_CT1, a, b);
+      rc2 = CMRtwosumDecomposeSecond(cmr, M, sepa, &X2, P_RO2, P_CO2, P_RT2, P_CT2, c, d);
       if (a[0] != SIZE_MAX) { fsr[0] = a[0]; nfsr = 1; }
       if (b[0] != SIZE_MAX) { fsc[0] = b[0]; nfsc = 1; }
       if (c[0] != SIZE_MAX) { ssr[0] = c[0]; nssr = 1; }
@@ -1304,8 +1319,8 @@ static void do_kdecomp(CMR* cmr)
         ok = 2;
       if (!rc1)
       {
-        rc1 = CMRdeltasumDecomposeFirst(cmr, M, sepa, eps, &X1, ro1, co1, NULL, NULL, fsr, fsc);
-        rc2 = CMRdeltasumDecomposeSecond(cmr, M, sepa, eps, &X2, ro2, co2, NULL, NULL, ssr, ssc);
+        rc1 = CMRdeltasumDecomposeFirst(cmr, M, sepa, eps, &X1, P_RO1, P_CO1, P_RT1, P_CT1, fsr, fsc);
+        rc2 = CMRdeltasumDecomposeSecond(cmr, M, sepa, eps, &X2, P_RO2, P_CO2, P_RT2, P_CT2, ssr, ssc);
       }
       nfsr = 1; nfsc = 2; nssr = 1; nssc = 2;
     }
@@ -1316,8 +1331,8 @@ static void do_kdecomp(CMR* cmr)
         ok = 2;
       if (!rc1)
       {
-        rc1 = CMRysumDecomposeFirst(cmr, M, sepa, eps, &X1, ro1, co1, NULL, NULL, fsr, fsc);
-        rc2 = CMRysumDecomposeSecond(cmr, M, sepa, eps, &X2, ro2, co2, NULL, NULL, ssr, ssc);
+        rc1 = CMRysumDecomposeFirst(cmr, M, sepa, eps, &X1, P_RO1, P_CO1, P_RT1, P_CT1, fsr, fsc);
+        rc2 = CMRysumDecomposeSecond(cmr, M, sepa, eps, &X2, P_RO2, P_CO2, P_RT2, P_CT2, ssr, ssc);
       }
       nfsr = 2; nfsc = 1; nssr = 2; nssc = 1;
     }
@@ -1329,16 +1344,18 @@ static void do_kdecomp(CMR* cmr)
         ok = 2;
       if (!rc1)
       {
-        rc1 = CMRthreesumDecomposeFirst(cmr, M, sepa, sr, sc, beta, &X1, ro1, co1, NULL, NULL, fsr, fsc);
-        rc2 = CMRthreesumDecomposeSecond(cmr, M, sepa, sr, sc, gamma, &X2, ro2, co2, NULL, NULL, ssr, ssc);
+        rc1 = CMRthreesumDecomposeFirst(cmr, M, sepa, sr, sc, beta, &X1, P_RO1, P_CO1, P_RT1, P_CT1, fsr, fsc);
+        rc2 = CMRthreesumDecomposeSecond(cmr, M, sepa, sr, sc, gamma, &X2, P_RO2, P_CO2, P_RT2, P_CT2, ssr, ssc);
       }
       nfsr = 2; nfsc = 3; nssr = 3; nssc = 2;
     }
   }
   /* For Delta- and Y-sums the components are minors of M only if the connecting path also exists in the other part:
    * ask the library for epsilon on the separation with the two parts exchanged. */
+  /* ... and the theorem "components of a TU matrix are TU" needs a 3-connected matrix: the case line may end with a
+   * flag (computed by the generator by enumerating all bipartitions) that withdraws the demand when it is 0. */
   int both = 0;
-  if (ok == 1 && (kind == 3 || kind == 4))
+  if (ok == 1 && (kind == 3 || kind == 4) && threeConnected)
   {
     CMR_SEPA* swappedSepa = NULL;
     die_on(CMRsepaCreate(cmr, m, n, &swappedSepa), "CMRsepaCreate");
@@ -1358,6 +1375,8 @@ static void do_kdecomp(CMR* cmr)
     }
     CMRsepaFree(cmr, &swappedSepa);
   }
+  if (ok == 1 && nullmask)
+    ok = 3;
   rec_begin();
   oi(kind); oi(p);
   o_chr_dense(M);
@@ -1381,6 +1400,7 @@ static void do_kdecomp(CMR* cmr)
   if (X2)
     CMRchrmatFree(cmr, &X2);
   free(ro1); free(co1); free(ro2); free(co2);
+  free(rt1); free(ct1); free(rt2); free(ct2);
   CMRsepaFree(cmr, &sepa);
   CMRchrmatFree(cmr, &Mt);
   CMRchrmatFree(cmr, &M);
@@ -1669,6 +1689,69 @@ static void do_textread(CMR* cmr)
     CMRchrmatFree(cmr, &cm);
   if (im)
     CMRintmatFree(cmr, &im);
+  free(buf);
+}
+
+/* case: wantlabels nbytes bytes...   record: nbytes bytes.. rc nnodes haslabels [nn (len bytes..)*] nedges (u v element)* */
+static void do_edgelist(CMR* cmr)
+{
+  long long wl = nx();
+  size_t nb = nx();
+  char* buf = malloc(nb + 1);
+  for (size_t i = 0; i < nb; ++i)
+    buf[i] = (char) nx();
+  buf[nb] = 0;
+  FILE* f = nb ? fmemopen(buf, nb, "r") : fopen("/dev/null", "r");
+  CMR_GRAPH* g = NULL;
+  CMR_ELEMENT* elements = NULL;
+  char** labels = NULL;
+  CMR_ERROR rc = CMRgraphCreateFromEdgeList(cmr, &g, &elements, wl ? &labels : NULL, f);
+  fclose(f);
+  rec_begin();
+  osz(nb);
+  for (size_t i = 0; i < nb; ++i)
+    oi((unsigned char) buf[i]);
+  oi(rc);
+  if (!rc && g)
+  {
+    size_t nn = CMRgraphNumNodes(g);
+    osz(nn);
+    oi(wl ? 1 : 0);
+    if (wl)
+    {
+      osz(nn);
+      for (size_t v = 0; v < nn; ++v)
+      {
+        size_t len = strlen(labels[v]);
+        osz(len);
+        for (size_t i = 0; i < len; ++i)
+          oi((unsigned char) labels[v][i]);
+      }
+    }
+    size_t ne = CMRgraphNumEdges(g);
+    osz(ne);
+    for (size_t e = 0; e < ne; ++e)
+    {
+      oi(CMRgraphEdgeU(g, (CMR_GRAPH_EDGE) e));
+      oi(CMRgraphEdgeV(g, (CMR_GRAPH_EDGE) e));
+      oi(elements[e]);
+    }
+  }
+  else
+  {
+    oi(0); oi(0); oi(0);
+  }
+  rec_end();
+  if (labels && g)
+  {
+    for (size_t v = 0; v < CMRgraphNumNodes(g); ++v)
+      free(labels[v]);
+    CMRfreeBlockArray(cmr, &labels);
+  }
+  if (elements)
+    CMRfreeBlockArray(cmr, &elements);
+  if (g)
+    CMRgraphFree(cmr, &g);
   free(buf);
 }
 
@@ -2120,12 +2203,13 @@ static struct
   {"textwrite", do_textwrite},    /* 17 */
   {"equimod", do_equimod},        /* 18 */
   {"matutil", do_matutil},        /* 19 */
+  {"edgelist", do_edgelist},      /* 20 */
   {"tlimit", do_tlimit},
   {"hist", do_hist},
   {"threads", do_threads},
   {NULL, NULL}
 };
-#define NUM_SUB_APIS 20
+#define NUM_SUB_APIS 21
 
 /* ---------- running a handler with its record captured in memory ---------- */
 
